@@ -28,6 +28,10 @@ pub(crate) fn stub_layout_empty() -> Arc<crate::vm::GlobalLayout> {
 pub(crate) fn stub_ok_verified(_vm: &mut VM, _f: GcRef) -> Result<(), RuntimeError> {
     Ok(())
 }
+pub(crate) fn stub_verify_value(_vm: &VM, _f: &Function) -> Result<(), RuntimeError> {
+    // instantiating a nested function re-verifies it; the verifier has its own obligations (C04 V1) and costs ~700 s per shape
+    Ok(())
+}
 pub(crate) fn stub_prepare_globals(_vm: &mut VM, _f: GcRef) -> usize {
     kani::assume(false);
     0
@@ -49,6 +53,14 @@ pub(crate) fn stub_call_cached_native(_vm: &mut VM, native: &NativeFunction, _ar
     }
 }
 
+/// set by the stub that replaces VM::collect in C13 obligations: "a collection ran"
+pub(crate) static mut VERIF_COLLECTED: bool = false;
+pub(crate) fn stub_collect(_vm: &mut VM) {
+    // a real collection executes Heap::mark, which CBMC cannot finish even on a concrete 2-object heap (C03); C13 only needs
+    // to know *whether* a collection is started
+    unsafe { VERIF_COLLECTED = true; }
+}
+
 macro_rules! vm_harness {
     ($(#[$m:meta])* fn $name:ident() $body:block) => {
         #[kani::proof]
@@ -56,6 +68,23 @@ macro_rules! vm_harness {
         #[kani::stub(std::fmt::format, stub_format)]
         #[kani::stub(crate::vm::VM::runtime_error, stub_runtime_error)]
         #[kani::stub(crate::vm::GlobalLayout::empty, stub_layout_empty)]
+        $(#[$m])*
+        fn $name() $body
+    };
+}
+
+/// like vm_harness!, plus the stubs every call-family obligation needs (natives, verification, global-layout switching)
+macro_rules! call_harness {
+    ($(#[$m:meta])* fn $name:ident() $body:block) => {
+        #[kani::proof]
+        #[kani::stub(std::hash::RandomState::new, stub_random_state)]
+        #[kani::stub(std::fmt::format, stub_format)]
+        #[kani::stub(crate::vm::VM::runtime_error, stub_runtime_error)]
+        #[kani::stub(crate::vm::GlobalLayout::empty, stub_layout_empty)]
+        #[kani::stub(crate::vm::VM::call_cached_native, stub_call_cached_native)]
+        #[kani::stub(crate::vm::VM::ensure_function_verified, stub_ok_verified)]
+        #[kani::stub(crate::vm::VM::prepare_globals_for_function, stub_prepare_globals)]
+        #[kani::stub(crate::vm::VM::sync_current_function_globals, stub_sync_globals)]
         $(#[$m])*
         fn $name() $body
     };
